@@ -709,6 +709,17 @@ theorem C15_none_oversubscribed_binds_partial (cmd : Cmd) (hb : cmd.bind = none)
   refine ⟨noneMask cfg, fun i => i % numPus cfg.t, by simp only [startup, hc, hb, affInitMasks], ?_⟩
   simp [noneMask, Nat.mod_self]
 
+/-- **`--pika:cores` has no effect while the process mask is used** (all four modes): the
+    decoders overwrite `max_cores` — the `cores < threads` findings need
+    `--pika:ignore-process-mask`. -/
+theorem C15_cores_ignored_with_mask (m : Mode) (cfg : Cfg) (k : Nat) (h : cfg.usePm = true) :
+    decode m { cfg with maxCores := k } = decode m cfg := decode_withCores m cfg k h
+
+/-- compact with `--pika:cores=0 --pika:ignore-process-mask`: no core is looked at, the outer loop
+    never ends (the remaining non-terminating input of compact; with `0 < cores` it wraps around
+    and oversubscribes instead: `C15_compact_oversubscribes_maxcores`) -/
+example : isDiverge (decode .compact { cfg21 with maxCores := 0 }) = true := by decide
+
 /-- the command lines of the E0 smoke test: 2×2×2, mask {1,2,3,6} -/
 def pmA : Nat → Bool := fun q => q == 1 || q == 2 || q == 3 || q == 6
 example : (cmdCfg ⟨.cores, .dflt, false, some .scatter⟩ t222 pmA).map (fun c => (c.n, c.maxCores)) =
